@@ -58,6 +58,8 @@ def result_rows(res, names, how, gkind, gcat):
 
 
 def run(tier: str, seed: int) -> int:
+    import dask
+    import dask.dataframe as dd
     import spatialpandas as sp
     chk = Check("C05", tier, seed)
     rng = chk.rng
@@ -152,6 +154,23 @@ def run(tier: str, seed: int) -> int:
                     if got != want:
                         chk.violation(f"rows|{rk}|{how}|{sig}", desc + f"\n  rows (idx, index_col, a, s_l, b, s_r, geometry):\n   got  {got}\n   want {want}",
                                       "# " + desc, ctx=dict(site="sjoin", mode="rows", rkind=rk, how=how))
+                    # the same join with a Dask frame on the left (partitions of one or a few rows: degenerate partition extents,
+                    # right shapes that only touch them): same rows as the pandas join
+                    if how != "right" and nl >= 1 and h % 3 == 0:
+                        try:
+                            with dask.config.set(scheduler="synchronous"):
+                                dleft = dd.from_pandas(left, npartitions=min(nl, 1 + (h // 3) % 3), sort=False)
+                                dres = sp.sjoin(dleft, right, how=how, lsuffix=suf[0], rsuffix=suf[1]).compute()
+                        except Exception as ex:  # noqa: BLE001
+                            chk.violation(f"dask-raises|{rk}|{how}|{type(ex).__name__}", "Dask left frame: " + desc + f"\n  raises {type(ex).__name__}: {ex}", "# " + desc,
+                                          ctx=dict(site="sjoin.dask", mode="raises", rkind=rk))
+                            continue
+                        chk.count()
+                        gotd = result_rows(dres, nm, how, gkind, gcat) if set(dres.columns) == want_cols else sorted(dres.columns)
+                        if gotd != want:
+                            chk.violation(f"dask-rows|{rk}|{how}|{sig}", f"Dask left frame ({dleft.npartitions} partitions): " + desc +
+                                          f"\n  rows (idx, index_col, a, s_l, b, s_r, geometry):\n   got  {gotd}\n   want {want}",
+                                          "# " + desc, ctx=dict(site="sjoin.dask", mode="rows", rkind=rk, how=how))
                 if len(seen) == 7:
                     chk.sample({"right_kind": rk, "lrows": st["lrows"], "rrows": st["rrows"], "hit_pairs": x["hit"], "rows_left_join": x["rows"]["left"]})
     if bad and len(chk.violations) + sum(chk.known_hits.values()) == before:
